@@ -18,7 +18,8 @@ CHECK = {
         "continuity is required bit-for-bit; step <= limit x (1+1e-12); step >= displacement x (1-1e-12); point location by the C03 oracle (no claim within 1e-6 of a surface)",
         "Urban MSC variants use a synthetic transport cross section (lambda_tr = E^2 / 20 MeV^2/cm)",
     ],
-    "bounds": {"quick": {"deviations": 2}, "thorough": {"deviations": 3}},
+    "bounds": {"extra_roots": "e-/e+ reaching a face with 0.005 / 0.025 MeV (tracking cut 0.02 MeV); MSC + secondary stack of capacity 2 + two primaries (e+ that stops, gamma) in both orders: annihilation at rest deferred by an allocation failure",
+               "quick": {"deviations": 2}, "thorough": {"deviations": 3}},
     "parts": [
         {"name": "steps", "harness": "c01_energy", "flavour": "rel",
          "shards": {"quick": 16, "thorough": 16}, "deadline": {"quick": 100, "thorough": 1200}},
